@@ -64,6 +64,27 @@ func profileByName(name string) Profile {
 		p.W["truncate"] = 4
 		p.W["restart"] = 2
 		p.MaxWrite = 60000
+	case "crashmix": // C01/C07: all mutating RPCs, three stability levels, big removals
+		p.W["write"] = 22
+		p.W["bigwrite"] = 3
+		p.W["commit"] = 8
+		p.W["truncate"] = 8
+		p.W["create"] = 10
+		p.W["mkdir"] = 5
+		p.W["symlink"] = 3
+		p.W["remove"] = 8
+		p.W["rmdir"] = 3
+		p.W["rename"] = 8
+		p.W["read"] = 4
+		p.W["stale"] = 0
+		p.W["restart"] = 0
+		p.W["readdir"] = 1
+		p.W["readdirplus"] = 1
+		p.W["badname"] = 1
+		p.MaxWrite = 30000
+	case "unstablemix": // C07: three stability levels on several files, COMMITs, metadata operations
+		p.W = map[string]int{"write": 40, "commit": 10, "create": 6, "truncate": 5, "read": 6, "rename": 3, "remove": 3, "mkdir": 2, "getattr": 2, "bigwrite": 1}
+		p.MaxWrite = 12000
 	case "names": // namespace heavy
 		p.W["write"] = 3
 		p.W["read"] = 2
